@@ -897,6 +897,14 @@ def special_cases(strict=True):
                                    'a.a2l': m1 + '/include "c.a2l"\n', 'c.a2l': m2})
     add('nested from a sub-directory', {'main.a2l': _HEAD + '    /include "sub/a.a2l"\n' + _TAIL,
                                         'sub/a.a2l': m1 + '/include "c.a2l"\n', 'sub/c.a2l': m2})
+    # the same file name on two directory levels (the process works in the directory of the main file): the directive of the file
+    # in the sub-directory means the file next to it
+    add('same name in the directory of the main file and next to the including file',
+        {'main.a2l': _HEAD + '    /include "sub/group.a2l"\n    /include "defs.a2l"\n' + _TAIL,
+         'sub/group.a2l': m1 + '/include defs.a2l\n', 'sub/defs.a2l': m2, 'defs.a2l': m3})
+    add('same name on three levels, quoted, backslash',
+        {'main.a2l': _HEAD + '    /include "a/b/inner.a2l"\n' + _TAIL,
+         'a/b/inner.a2l': m1 + '/include "x\\defs.a2l"\n', 'a/b/x/defs.a2l': m2, 'x/defs.a2l': m3, 'a/x/defs.a2l': _meas('m4')})
     add('nested: the inner include is inside a block of the outer file',
         {'main.a2l': _HEAD + '    /include "sub/a.a2l"\n' + _TAIL,
          'sub/a.a2l': '/begin MEASUREMENT m1 "" UBYTE NO_COMPU_METHOD 0 0 0 255\n/include "c.a2l"\n/end MEASUREMENT\n',
@@ -1040,9 +1048,41 @@ def case_line(case):
     for path in sorted(case['files']):
         files.append([path, _bytes(case['files'][path] or '')])
     items = [files, case['main'], 1 if case.get('strict', True) else 0, _bytes(case.get('flat') or '')]
-    if case.get('ops'):
-        items.append(case['ops'])          # edits through the API before the model is written (harness kind INCL)
+    items.append(case.get('ops') or [])    # edits through the API before the model is written (harness kind INCL)
+    items.append([_bytes(d) for d in decoys_of(case)])
     return sx.enc(items)
+
+
+def decoys_of(case):
+    """Files with other content that the harness puts into the WORKING directory of the process (which is not the directory of the
+    main file): one for the name of every directive that resolves next to its including file.  make_include_filename falls back to
+    the working directory only for names that are missing next to the including file, so no decoy may carry such a name."""
+    if case.get('kind') == 'cycle':
+        return []           # a cycle ends when the path outgrows the limit of the operating system and the fall-back is tried
+    good, bad = set(), set()
+    for f in sorted(case['files']):
+        text = case['files'][f]
+        if f.endswith('/') or text is None:
+            continue
+        if isinstance(text, bytes):
+            text = text.decode('utf-8', 'replace')
+        for a2ml_file in (False, True) if f.endswith('.aml') else (False,):
+            try:
+                incs = find_includes(text, a2ml_file=a2ml_file)
+            except Exception:
+                continue
+            for inc in incs:
+                if inc.name is None:
+                    continue
+                n = posixpath.normpath(inc.name.replace('\\', '/'))
+                target = resolve(f, inc.name)
+                if target in case['files'] and not target.endswith('/') and case['files'][target] is not None:
+                    if not n.startswith('/') and not n.startswith('..') and n not in ('.', ''):
+                        good.add(n)
+                else:
+                    bad.add(n)
+                    bad.add(inc.name)
+    return sorted(good - bad)
 
 
 def cleanup_tmp():
